@@ -15,6 +15,14 @@ def _make_history(profile, tid, s, nv, steps):
         return history.decl_history(tid, s, steps)
     if profile == 'stream':
         return history.stream_history(tid, s, nv, steps, reorder_between=(tid % 3 == 2))
+    if profile == 'decl_gap':
+        return history.gap_level_trace(tid, s)
+    if profile == 'zero':
+        from harness.drivers import wide
+        return wide.zero_history(tid, s, tid % 3)
+    if profile.startswith('wide'):
+        from harness.drivers import wide
+        return wide.wide_history(tid, s, nv, steps, focus=profile[5:] or 'mixed')
     if profile == 'allfun':
         import itertools
         ps = list(itertools.permutations(history.ALL_NAMES[:nv]))
@@ -68,8 +76,7 @@ def graph_task(shard, dot, part, nparts, limit, seed, names, declared,
                                 meta=dict(driver='graph'))
             try:
                 for a in acts:
-                    if a != ('init',):
-                        rp.step(a)
+                    rp.step(a)
             except Exception as e:
                 if rec.salvage(e) is None:
                     raise
@@ -129,6 +136,16 @@ def stage_histories(chk, ntraces, steps, nvars_choices, nparts=None,
              for i in range(nparts)]
     shards, _ = chk.generate(history_task, tasks)
     return shards
+
+
+def stage_wide(chk, focus, tag='w'):
+    """Histories on wide managers (9-12 variables, sparse functions): levels
+    >= 8, several variables quantified / substituted / renamed at once, names
+    whose alphabetical order is not their level order (drivers/wide.py)."""
+    q = chk.quick
+    return stage_histories(chk, ntraces=32 if q else 480, steps=18 if q else 30,
+                           nvars_choices=[9, 9, 10, 11] if q else [9, 10, 11, 12],
+                           profile='wide_' + focus, tag=tag + focus)
 
 
 # ---------------- canaries ----------------
